@@ -27,6 +27,8 @@ runs = [
                   ["SkipMeansUpToDate"], [], "Invariant SkipMeansUpToDate is violated"),   # F3
     lambda: other("Incremental.tla", "inc_f11", {"Paths": "{p1, p2}", "NT": 1, "MaxM": 1, "MaxC": 1, "MaxOps": 2, "MaxInv": 2, "RecordBefore": True, "GuardNoInput": False, "Foreigns": True},
                   [], ["NoInputNeverSkipped"], "Action property NoInputNeverSkipped is violated"),   # F11
+    lambda: other("Watcher.tla", "watcher", {"MaxRes": 2, "MaxEvents": 1, "DedupAcrossGroups": True}, ["NoViolation", "GroupingFaithful"], [],
+                  "is violated"),   # watch registrations de-duplicated across extension groups (seeded changes C16r3/m1, C06r3/m2)
     lambda: other("Loader.tla", "loader", {"UniqueNames": False, "Dirs": '{"d0", "d1", "d2"}'}, ["VerdictRight"], [], "Invariant VerdictRight is violated"),  # F7
 ]
 lines = ["# Model mutants: the design specifications are sharp", "", "| specification and switch | TLC must report | reported | states |", "|---|---|---|---|"]
